@@ -150,7 +150,7 @@ pub fn run_all(ctx: &mut Ctx, replay: Option<&Path>) {
         }
         return;
     }
-    let per = ctx.tier.pick(400, 4000);
+    let per = ctx.tier.pick(1000, 6000);
     for i in 0..21 {
         let k = TemplateCheck(i);
         ctx.regressions(&k);
